@@ -78,6 +78,7 @@ type consumerInfo struct {
 	m         *Model
 	callPoint func(c ssa.CallInstruction) bool // executing this call is a pass point
 	okPoint   func(c *ssa.Call) bool           // the success (true / non-nil) edge of this call's result is a pass point
+	failPoint func(c *ssa.Call) bool           // the failure (false / nil) edge of this call's result is a pass point (optional)
 	always    map[*ssa.Function]bool           // every path entry->return passes a point
 	onOK      map[*ssa.Function]bool           // every path to a non-nil/true return passes a point
 	may       map[*ssa.Function]bool           // contains (transitively) a point
@@ -233,6 +234,9 @@ func (ci *consumerInfo) edgeConsumes(pred, succ *ssa.BasicBlock) bool {
 			if f.Holds && ci.okPoint(c) {
 				return true
 			}
+			if !f.Holds && ci.failPoint != nil && ci.failPoint(c) {
+				return true
+			}
 			if sc := c.Call.StaticCallee(); sc != nil && ci.onOK[sc] && f.Holds && isBoolT(c.Type()) {
 				return true
 			}
@@ -242,9 +246,9 @@ func (ci *consumerInfo) edgeConsumes(pred, succ *ssa.BasicBlock) bool {
 			}
 			var call *ssa.Call
 			var other ssa.Value
-			if x, ok := c.X.(*ssa.Call); ok {
+			if x, ok := storedCall(c.X).(*ssa.Call); ok {
 				call, other = x, c.Y
-			} else if y, ok := c.Y.(*ssa.Call); ok {
+			} else if y, ok := storedCall(c.Y).(*ssa.Call); ok {
 				call, other = y, c.X
 			}
 			if call == nil {
@@ -257,9 +261,67 @@ func (ci *consumerInfo) edgeConsumes(pred, succ *ssa.BasicBlock) bool {
 			if sc := call.Call.StaticCallee(); sc != nil && ci.onOK[sc] && (c.Op == token.NEQ) == f.Holds {
 				return true
 			}
+			if ci.failPoint != nil && ci.failPoint(call) && (c.Op == token.EQL) == f.Holds {
+				return true // the nil edge of a callee that has recorded an error whenever it returns nil
+			}
 		}
 	}
 	return false
+}
+
+// storedCall resolves `x.f = call(); if x.f == nil` to the call: v is a load of a field of a
+// function-local allocation whose only store in the function, in the same block before the load, is a call result.
+func storedCall(v ssa.Value) ssa.Value {
+	ld, ok := v.(*ssa.UnOp)
+	if !ok || ld.Op != token.MUL {
+		return v
+	}
+	fa, ok := ld.X.(*ssa.FieldAddr)
+	if !ok {
+		return v
+	}
+	if _, isAlloc := fa.X.(*ssa.Alloc); !isAlloc {
+		return v
+	}
+	var only *ssa.Store
+	n := 0
+	for _, b := range ld.Parent().Blocks {
+		for _, in := range b.Instrs {
+			st, isSt := in.(*ssa.Store)
+			if !isSt {
+				continue
+			}
+			if fa2, isFA := st.Addr.(*ssa.FieldAddr); isFA && fa2.X == fa.X && fa2.Field == fa.Field {
+				only = st
+				n++
+			}
+		}
+	}
+	if n != 1 || only.Block() != ld.Block() {
+		return v
+	}
+	// between the store and the load nothing else in the block may write (no calls, no stores)
+	started := false
+	for _, in := range ld.Block().Instrs {
+		if in == ssa.Instruction(only) {
+			started = true
+			continue
+		}
+		if in == ssa.Instruction(ld) {
+			break
+		}
+		if !started {
+			continue
+		}
+		switch in.(type) {
+		case *ssa.Call, *ssa.Store, *ssa.Go, *ssa.Defer, *ssa.MapUpdate:
+			return v
+		}
+	}
+	if !started {
+		return v
+	}
+	return only.Val
 }
 
 func isBoolT(t types.Type) bool {
